@@ -79,4 +79,12 @@ theorem needed_pass_vs_build_pass_from_related_trees (cfg : Cfg) (hb : cfg.mode 
         (runPass cfg a src first).2 (runPass cfg.toNeeded b src first).2) :=
   needed_pass_rel cfg hb a b S src first hag hsrc hnd hsafe
 
+/-- the side condition is executable (`srcSafeB`, evaluated by the model driver on every source of the
+generated trees; counts in the evidence of C08): where it answers `true`, only-if-needed equals build -/
+theorem needed_pass_eq_build_pass_where_checked (cfg : Cfg) (hb : cfg.mode = .build) (a : FS) (src : Path) (first : Bool)
+    (hs : srcSafeB cfg a src = some true) :
+    (runPass cfg a src first).1 = (runPass cfg.toNeeded a src first).1 ∧
+    ((runPass cfg a src first).1 = .ok → ∀ q, (runPass cfg a src first).2.file? q = (runPass cfg.toNeeded a src first).2.file? q) :=
+  needed_eq_build_where_checked cfg hb a src first hs
+
 end C09
